@@ -332,3 +332,89 @@ func hContainsStr(s, sub string) bool {
 	}
 	return false
 }
+
+// VfC17_InlineNodes: inline nodes are placed where they are written: every
+// inline `!{}` / `!{!N}` / `!DIExpression()` of a module is an object of its
+// own (two sites never share one, nor do two parses), so that numbering one of
+// them - here by giving it an ID and listing it among the definitions - moves
+// that one node only: the other sites, and a second module parsed from the
+// same text, still print their node inline.
+//
+//vf:unwind 600
+func VfC17_InlineNodes() {
+	d := vfString("id", 1)
+	vfAssume(vfAnd(d[0] >= '0', d[0] <= '6')) // below 7, the ID given to an inline node further down
+	src := "@g = global i32 0, !a !{}, !b !{}\n" +
+		"@h = global i32 0, !a !{!" + d + "}\n" +
+		"define void @f(i32* %p) {\n\t%x = load i32, i32* %p, !invariant.load !{}\n\t%y = load i32, i32* %p, !invariant.load !{}\n\tret void\n}\n" +
+		"!" + d + " = !{!{}, !{}}\n"
+	m1, e1 := ParseString("a.ll", src)
+	m2, e2 := ParseString("b.ll", src)
+	vfReach("C17.inline-nodes")
+	vfObserveStr("src", src)
+	vfAssert("C17.inline.accepted", vfAnd(e1 == nil, e2 == nil))
+	if e1 != nil || e2 != nil {
+		return
+	}
+	collect := func(m *ir.Module) []*metadata.Tuple {
+		var out []*metadata.Tuple
+		add := func(n interface{}) {
+			if t, ok := n.(*metadata.Tuple); ok {
+				out = append(out, t)
+			}
+		}
+		for _, a := range m.Globals[0].Metadata {
+			add(a.Node)
+		}
+		for _, inst := range m.Funcs[0].Blocks[0].Insts {
+			if ld, ok := inst.(*ir.InstLoad); ok {
+				for _, a := range ld.Metadata {
+					add(a.Node)
+				}
+			}
+		}
+		if def, ok := m.MetadataDefs[0].(*metadata.Tuple); ok {
+			for _, f := range def.Fields {
+				add(f)
+			}
+		}
+		return out
+	}
+	n1, n2 := collect(m1), collect(m2)
+	vfAssert("C17.inline.six-sites", vfAnd(len(n1) == 6, len(n2) == 6))
+	if len(n1) != 6 || len(n2) != 6 {
+		return
+	}
+	all := append(append([]*metadata.Tuple(nil), n1...), n2...)
+	distinct := true
+	for i := range all {
+		vfAssert("C17.inline.unnumbered", all[i].ID() == -1)
+		for j := i + 1; j < len(all); j++ {
+			if all[i] == all[j] {
+				distinct = false
+			}
+		}
+	}
+	vfAssert("C17.inline.each-site-has-its-own-node", distinct)
+	want := m2.String()
+	// number one inline node of the first module and list it as a definition
+	n1[0].SetID(7)
+	m1.MetadataDefs = append(m1.MetadataDefs, n1[0])
+	_ = m1.String()
+	vfAssert("C17.inline.other-module-unaffected", m2.String() == want)
+	y := m1.String()
+	m3, e3 := ParseString("c.ll", y)
+	vfAssert("C17.inline.numbered-node-reparses", e3 == nil)
+	if e3 == nil {
+		c3 := collect(m3)
+		// five sites are still inline; the numbered one is now a reference
+		vfAssert("C17.inline.only-that-node-moved", len(c3) == 6)
+		inline := 0
+		for _, t := range c3 {
+			if t.ID() == -1 {
+				inline++
+			}
+		}
+		vfAssert("C17.inline.only-that-node-moved", inline == 5)
+	}
+}
